@@ -130,6 +130,22 @@ def check_derived(gfa, model):
             raise Violation("other", "%r: other(%s) = %s" % (r.text(), a[0], ot))
         if not l.is_dovetail() or l.is_containment() or l.is_internal():
             raise Violation("predicates", "%r: dovetail predicates wrong" % r.text())
+    # the lists handed out by the Gfa belong to the caller (documented: "adding or removing elements to the list
+    # does not add or remove lines from the Gfa instance"): emptying, extending or popping one changes no later answer
+    for attr in ("dovetails", "containments", "edges", "segments", "gaps", "paths", "sets", "fragments"):
+        try:
+            first = list(getattr(gfa, attr))
+            got = getattr(gfa, attr)
+            got.extend(gfa.segments)
+            if got:
+                got.pop(0)
+            got.clear()
+            again = list(getattr(gfa, attr))
+        except AttributeError:
+            continue
+        if len(first) != len(again) or any(x is not y for x, y in zip(first, again)):
+            raise Violation("returned-list-aliased", "gfa.%s answers %d lines, and %d after the caller edited the list it was given\n%s" % (
+                attr, len(first), len(again), model.text()), attr)
     c = model.counts()
     if len(gfa.dovetails) != c["dovetails"]:
         raise Violation("gfa.dovetails", "len(gfa.dovetails)=%d expected %d\n%s" % (len(gfa.dovetails), c["dovetails"], model.text()))
